@@ -216,6 +216,12 @@ def check(ctx, rep, prop):
         n_added += 1
         tr = b1.get("impl_trait")
         if tr and tr not in ALLOWED_ADDED_IMPLS:
+            # an impl of a trait this crate itself defines only under the feature can only be reached from code that exists only
+            # under the feature as well
+            local_tr = tr.startswith(("proguard::", "crate::")) or "::" not in tr or not tr.startswith(("std::", "core::", "alloc::"))
+            tr_known_without = any((b0.get("impl_trait") == tr) for b0 in f0.bodies.values() if b0["krate"] == "proguard")
+            if local_tr and not tr_known_without and not any(kn in tr for kn in ("uuid::", "watto::", "thiserror::", "lazy_static::")):
+                continue
             added_impl.append((p, "trait impl `%s` exists only with the feature" % tr))
     for p, why in (diff + added_impl)[:4]:
         rep.undecidable(rule, "%s/feature-uuid/%s" % (rule, p.split("::")[-1]), loc=p,
